@@ -26,6 +26,10 @@ reading the bus subscription, THEN `Close` is called, and only after it has retu
 stopped — an emitter blocked on the full subscription holds the lock `Close` needs (F38) -/
 def subscriberClose : List String := ["drain", "close", "stopdrain"]
 
+/-- `eventlogstore.query`: the entries whose payload is an operation are picked out first, the window is
+taken over them (F48: the listing used to end, silently, at the first entry that is not an operation) -/
+def logQuery : List String := ["operations", "window"]
+
 /-- `oneonone` `monitorTopic` (`Connect.monitor`): a message read from the pairwise topic is handed on
 only after the test that its sender is the peer the channel was opened for -/
 def monitorTopic : List String := ["next", "fromtarget", "emit"]
